@@ -258,6 +258,22 @@ def literal_form_cells(widths):
                     pick_lit_when = 0 if form == "ifexpr-lit-else" else 1
                     spec = lambda P, b, c, k=k, pl=pick_lit_when: P.ite((c != 0) if pl else (c == 0), P.const(k), b)
                     merges.append(("clocked", Cell(f"{form}|{k}|{tt}", [("b", tt), ("c", BIT)], tt, body, spec, setup=setup, range_check=True)))
+    # Null / Full as one operand of a merge: the fill applies to the TARGET's width, whatever the other operand's width
+    for ws, wt in ((2, 3), (1, 3), (3, 3)):
+        for kind in ("U", "S", "BV"):
+            ts, tt = Ty(kind, ws), Ty(kind, wt)
+            if kind == "BV" and ws != wt:
+                continue
+            for fill, bits in (("Full", (1 << wt) - 1), ("Null", 0)):
+                fv = SP._from_bits(PyP, bits, tt)
+                for form, body, setup in (
+                    ("ifexpr-fill-else", f"{{o}} <<= {{a}} if {{c}} else {fill}", ""),
+                    ("ifexpr-fill-first", f"{{o}} <<= {fill} if {{c}} else {{a}}", ""),
+                    ("return-fill", f"{{o}} <<= c05_pickf({{a}}, {{c}})", f"def c05_pickf(x, c):\n    if c:\n        return x\n    return {fill}\n"),
+                ):
+                    first = form == "ifexpr-fill-first"
+                    spec = lambda P, a, c, fv=fv, first=first, ts=ts, tt=tt: P.ite((c == 0) if not first else (c != 0), P.const(fv), (a if ts.kind != "BV" else a))
+                    merges.append(("clocked", Cell(f"{form}|{fill}|{ts}|{tt}", [("a", ts), ("c", BIT)], tt, body, spec, setup=setup.replace("c05_pickf", f"c05_pickf_{fill}") if False else setup, range_check=tt.kind != "BV")))
     return accept, reject, merges
 
 
